@@ -285,18 +285,26 @@ def run(ctx):
             continue
         if len(snaps) != 1:
             continue
-        served, connected = [], False
-        try:
-            with contextlib.redirect_stdout(io.StringIO()):
-                peer = SimPeer(first_commands=[f"load {f}"])
-            with ThreadedSession(peer=peer) as s:
-                connected = s.wait_connected(3000)
-                served = list(s.spa.struct.status_block)
-        except Exception:  # noqa
-            served = []
-        recs.append({"kind": "load", "file": os.path.basename(f), "index": 0, "bytes": list(snaps[0].bytes),
-                     "served": served, "stack": "sync", "connected": bool(connected), "lossy": False})
-        meta.append(f"{os.path.basename(f)}#0/sync/scripted-load")
+        for how in ("scripted-load", "scripted-reload"):
+            served, connected = [], False
+            try:
+                with contextlib.redirect_stdout(io.StringIO()):
+                    peer = SimPeer(first_commands=[f"load {f}"])
+                    if how == "scripted-reload":
+                        # a simulator that has been played with (what `set <item>=<value>` or a client's command does
+                        # to its block) and is then brought back to the capture by loading the same file again
+                        for _ in range(3):
+                            p_ = rng.randrange(0, len(snaps[0].bytes))
+                            peer.sim.structure.replace_status_block_segment(p_, bytes([snaps[0].bytes[p_] ^ (1 + rng.randrange(255))]))
+                        peer.sim.onecmd(f"load {f}")
+                with ThreadedSession(peer=peer) as s:
+                    connected = s.wait_connected(3000)
+                    served = list(s.spa.struct.status_block)
+            except Exception:  # noqa
+                served = []
+            recs.append({"kind": "load", "file": os.path.basename(f), "index": 0, "bytes": list(snaps[0].bytes),
+                         "served": served, "stack": "sync", "connected": bool(connected), "lossy": False})
+            meta.append(f"{os.path.basename(f)}#0/sync/{how}")
     bad, n = tlc.judge("C19_Judge", recs, "c19", chunk=40, jobs=12, heap="2g")
     for idx, why in bad:
         r_ = recs[idx]
